@@ -261,7 +261,7 @@ func (u *U) resolve(ft reflect.Type, obj, goField string, args []reflect.Value) 
 	inv := Inv{Path: path, Hook: "resolver", Obj: fc.Object, Field: fc.Field.Name, Start: s.tick()}
 	// received arguments (everything after ctx and, for non-root objects, obj)
 	first := 1
-	if len(args) > 1 && fc.Object != "Query" && fc.Object != "Mutation" && fc.Object != "Subscription" {
+	if len(args) > 1 && !isRoot(s.Schema, fc.Object) {
 		first = 2
 	}
 	if len(args) > first {
@@ -305,6 +305,16 @@ func (u *U) resolve(ft reflect.Type, obj, goField string, args []reflect.Value) 
 		s.record(inv)
 		return []reflect.Value{val, nilErr}
 	}
+}
+
+// isRoot: the object is the schema's query, mutation or subscription root (whatever it is called)
+func isRoot(s *ast.Schema, name string) bool {
+	for _, d := range []*ast.Definition{s.Query, s.Mutation, s.Subscription} {
+		if d != nil && d.Name == name {
+			return true
+		}
+	}
+	return false
 }
 
 func nilable(t reflect.Type) bool {
